@@ -462,3 +462,113 @@ func flushAllWithReaders(run *ev.Run) {
 		run.Distinct(caseID)
 	})
 }
+
+// flushAfterPrimaryLeft: the election id that gates Flush is the highest id the server has
+// learnt - it does not go down when the session that announced it leaves. A primary (id X)
+// and one or two standbys (lower ids) are connected; the primary leaves in one of three
+// ways; Flushes with every id from the lowest standby's up to X-1 must be refused with
+// FAILED_PRECONDITION and change nothing, a Flush with X must be honoured.
+func flushAfterPrimaryLeft(run *ev.Run) {
+	n := run.Pick(60, 1500)
+	ev.Parallel(n, ev.Workers(), func(i int) {
+		caseID := fmt.Sprintf("flush-after-primary-left-%d", i)
+		if !run.Want(caseID) {
+			return
+		}
+		r := run.Rand(caseID)
+		srv, err := drv.NewServer([]string{"VRF1"})
+		if err != nil {
+			run.Fatal(err.Error())
+			return
+		}
+		hi := uint64(r.Intn(2))
+		x := uint64(10 + r.Intn(10))
+		open := func(name string, id uint64) *drv.Session {
+			s := &drv.Session{Stream: drv.OpenModify(srv), Name: name, DefaultNI: "DEFAULT"}
+			if _, err := s.Params(drv.SinglePrimary(false)); err != nil {
+				run.Fatal(caseID + ": " + err.Error())
+				return nil
+			}
+			if _, err := s.Elect(&spb.Uint128{High: hi, Low: id}); err != nil {
+				run.Fatal(caseID + ": " + err.Error())
+				return nil
+			}
+			return s
+		}
+		low := x - uint64(2+r.Intn(5))
+		var standbys []*drv.Session
+		order := r.Intn(2) // standbys before or after the primary
+		var prim *drv.Session
+		if order == 0 {
+			prim = open("primary", x)
+		}
+		for k := 0; k < 1+r.Intn(2); k++ {
+			if s := open(fmt.Sprintf("standby%d", k), low+uint64(k)); s != nil {
+				standbys = append(standbys, s)
+				defer s.CloseSend()
+			}
+		}
+		if order == 1 {
+			prim = open("primary", x)
+		}
+		if prim == nil || len(standbys) == 0 {
+			return
+		}
+		// the primary programs an entry, then leaves
+		px := &spb.Uint128{High: hi, Low: x}
+		op := &spb.AFTOperation{Id: 1, NetworkInstance: "VRF1", Op: spb.AFTOperation_ADD, ElectionId: px, Entry: &spb.AFTOperation_NextHop{NextHop: &aftpb.Afts_NextHopKey{Index: 1, NextHop: &aftpb.Afts_NextHop{IpAddress: gen.S("192.0.2.1")}}}}
+		if out := prim.Ops([]*spb.AFTOperation{op}, px); out.RPCErr != nil || len(out.Results) != 1 || out.Results[0].GetStatus() != spb.AFTResult_RIB_PROGRAMMED {
+			run.Fatal(fmt.Sprintf("%s: set-up operation: %v %v", caseID, out.Results, out.RPCErr))
+			return
+		}
+		how := []string{"half-close", "cancel", "abort"}[r.Intn(3)]
+		switch how {
+		case "half-close":
+			prim.CloseSend()
+		case "cancel":
+			prim.Stream.(*drv.ModStream).Abort(status.Error(codes.Canceled, "context canceled"))
+		default:
+			prim.Stream.(*drv.ModStream).Abort(status.Error(codes.Unavailable, "transport is closing"))
+		}
+		if _, wd := prim.Stream.(*drv.ModStream).WaitEnd(); wd != nil {
+			run.Inconclusive(caseID + ": the primary's RPC did not end within the watchdog")
+			run.Eval(1)
+			return
+		}
+		var probs []string
+		trace := []string{fmt.Sprintf("primary (%d,%d) and %d standbys (from (%d,%d)) connected; the primary programs a next-hop in VRF1 and leaves by %s", hi, x, len(standbys), hi, low, how)}
+		count := func() int {
+			c, err := srv.VerifRIB().RIBContents()
+			if err != nil || c["VRF1"] == nil || c["VRF1"].Afts == nil {
+				return -1
+			}
+			return len(c["VRF1"].Afts.NextHop)
+		}
+		for id := low; id < x && len(probs) == 0; id++ {
+			_, err, wd := drv.Flush(srv, &spb.FlushRequest{NetworkInstance: &spb.FlushRequest_Name{Name: "VRF1"}, Election: &spb.FlushRequest_Id{Id: &spb.Uint128{High: hi, Low: id}}})
+			switch {
+			case wd != nil:
+				probs = append(probs, "INCONCLUSIVE|a Flush did not return within the watchdog")
+			case err == nil:
+				probs = append(probs, fmt.Sprintf("flush-accepted-but-must-be-rejected:lower-id-after-the-primary-left|a Flush with id (%d,%d) was answered OK; the highest id the server has learnt is (%d,%d), announced by a session that has left since", hi, id, hi, x))
+			case status.Code(err) != codes.FailedPrecondition:
+				probs = append(probs, fmt.Sprintf("flush-wrong-status:lower-id-after-the-primary-left:%s|%v", status.Code(err), err))
+			case count() != 1:
+				probs = append(probs, fmt.Sprintf("rejected-flush-changed-contents:lower-id-after-the-primary-left|VRF1 holds %d next-hops after a refused Flush", count()))
+			}
+			run.Count("flushes_with_a_lower_id_after_the_primary_left", 1)
+		}
+		if len(probs) == 0 {
+			if _, err, wd := drv.Flush(srv, &spb.FlushRequest{NetworkInstance: &spb.FlushRequest_Name{Name: "VRF1"}, Election: &spb.FlushRequest_Id{Id: px}}); wd != nil {
+				probs = append(probs, "INCONCLUSIVE|a Flush did not return within the watchdog")
+			} else if err != nil {
+				probs = append(probs, fmt.Sprintf("flush-rejected-but-must-be-accepted:highest-id-after-the-primary-left|%v", err))
+			} else if count() != 0 {
+				probs = append(probs, fmt.Sprintf("flush-left-entries:highest-id-after-the-primary-left|VRF1 holds %d next-hops", count()))
+			}
+		}
+		mon.Report(run, caseID, trace, probs)
+		run.Eval(1)
+		run.Distinct(caseID)
+	})
+}
